@@ -46,7 +46,8 @@ def run(chk):
     from . import c12
     mpz = prog.module("json_pointer.c")
     chk.require(mpz is not None, "json_pointer.c not in the build")
-    c12.r7(chk, prog, mpz)      # member names in remove / move come through the unescape routine (shared with C12)
+    with chk.shared():
+        c12.r7(chk, prog, mpz)      # member names in remove / move come through the unescape routine (shared with C12)
     chk.undecided_clauses += [
         "the resulting document for generated multi-operation patches (needs an RFC 6902 reference evaluator and execution)",
         "JSON Pointer resolution inside each operation (C12)",
